@@ -172,6 +172,16 @@ pub fn generate(seed: u64, thorough: bool) -> Scenario {
         });
     }
 
+    // a few calls succeed with a "falsy" result (none, false, zero, empty): such results are results
+    // like any other and must be remembered too
+    let nspecial = *rng.pick(&[0usize, 0, 1, 2]);
+    for _ in 0..nspecial {
+        let (f, a) = rng.pick(&all_sites).clone();
+        let Some(key) = const_key(&a) else { continue };
+        let fi = scn.functions.iter().position(|s| s.name == f).unwrap();
+        let v = rng.pick(&[XV::N, XV::N, XV::B(false), XV::I(0), XV::s(""), XV::V(vec![])]).clone();
+        scn.functions[fi].rows.push(ScriptRow { key: Some(key), tag: None, ordinal: None, out: ScriptOut::Ok(v) });
+    }
     scn.inputs = vec![InputSpec::Val(XV::M(vec![("x".into(), XV::I(1)), ("y".into(), XV::s("1"))]))];
     scn.text_build = rng.chance(1, 12);
     let ntasks = 2 + rng.usize(3);
